@@ -28,6 +28,26 @@ func c02Shapes() []Shape {
 	add("by-reference-slice", Prog(
 		Fn("f", []ParamDecl{Pm("s", TInts)}, nil, SSet("s", N(0), L(1)), SSet("s", N(2), L(2))),
 		Def("s", Ints(L(0))), Do(Call("f", V("s"))), Pr(Idx("s", N(0)), Idx("s", N(1)), Idx("s", N(2)), Len(V("s")))))
+	add("return-list-of-calls", Prog(
+		Fn("inc", []ParamDecl{Pm("a", TInt)}, []Type{TInt}, Ret(Op("+", V("a"), N(1)))),
+		Fn("tag", []ParamDecl{Pm("s", TString)}, []Type{TString}, Ret(Op("+", Op("+", S("<"), V("s")), S(">")))),
+		Fn("pair", []ParamDecl{Pm("a", TInt), Pm("b", TInt)}, []Type{TInt, TInt}, Ret(Call("inc", V("a")), Call("inc", V("b")))),
+		Fn("pairx", []ParamDecl{Pm("a", TInt), Pm("b", TInt)}, []Type{TInt, TInt}, Ret(Call("inc", V("a")), Op("*", Call("inc", V("b")), N(10)))),
+		Fn("triple", []ParamDecl{Pm("s", TString)}, []Type{TString, TString, TInt}, Ret(Call("tag", V("s")), Call("tag", Op("+", V("s"), V("s"))), Call("inc", N(0)))),
+		Fn("same", []ParamDecl{Pm("a", TInt)}, []Type{TInt, TInt, TInt}, Def("r", Call("inc", V("a"))), Ret(V("r"), Call("inc", V("r")), V("r"))),
+		DefN([]string{"x", "y"}, Call("pair", L(0), L(1))), Pr(V("x"), V("y")),
+		DefN([]string{"p", "q"}, Call("pairx", L(0), L(1))), Pr(V("p"), V("q")),
+		DefN([]string{"t1", "t2", "t3"}, Call("triple", S("a"))), Pr(V("t1"), V("t2"), V("t3")),
+		DefN([]string{"s1", "s2", "s3"}, Call("same", L(2))), Pr(V("s1"), V("s2"), V("s3"))))
+	add("underscore-as-target", Prog(
+		Fn("two", nil, []Type{TInt, TInt}, Ret(L(0), L(1))),
+		Fn("three", nil, []Type{TInt, TString, TString}, Ret(L(2), S("b"), S("c"))),
+		DefN([]string{"_", "b"}, Call("two")), Pr(V("b")),
+		Fn("g", nil, nil, DefN([]string{"_", "s", "t"}, Call("three")), Pr(V("s"), V("t"))),
+		Do(Call("g")),
+		Def("n", N(0)), SetN([]string{"_", "n"}, Call("two")), Pr(V("n")),
+		DefN([]string{"x", "y"}, L(3), L(4)), SetN([]string{"_", "x", "y"}, N(0), V("y"), V("x")), Pr(V("x"), V("y")),
+		DefN([]string{"k", "_"}, L(3), L(4)), Pr(V("k"))))
 	add("same-names-across-frames", Prog(
 		Fn("f", []ParamDecl{Pm("a", TInt)}, []Type{TInt}, Def("b", Op("*", V("a"), N(2))), Ret(V("b"))),
 		Fn("g", []ParamDecl{Pm("a", TInt)}, []Type{TInt}, Def("b", Call("f", Op("+", V("a"), N(1)))), Ret(Op("+", V("b"), V("a")))),
@@ -298,6 +318,19 @@ func c03Shapes(deepOpt ...bool) []Shape {
 		return Prog(Def("s", Ints()), For3(Def("i", N(0)), Op("<", V("i"), L(0)), Inc("i"), SSet("s", V("i"), Op("*", V("i"), N(2)))), Pr(Len(V("s")), Idx("s", Op("-", L(0), N(1))), Idx("s", N(9))))
 	}})
 	add("slice-of-slices-of-values-in-loop", Prog(Def("acc", Ints()), For3(Def("i", N(0)), Op("<", V("i"), N(3)), Inc("i"), Def("t", Ints(V("i"))), SSet("acc", V("i"), Idx("t", N(0)))), Pr(Idx("acc", N(0)), Idx("acc", N(1)), Idx("acc", N(2)))))
+	add("slice-literal-in-loop-kept-alias", Prog(Def("first", Ints()), Def("rows", Strs()), Def("keep", Strs()),
+		For3(Def("i", N(0)), Op("<", V("i"), N(3)), Inc("i"),
+			Def("cur", Ints(V("i"))), SSet("cur", N(1), Op("*", V("i"), N(10))),
+			Def("e", Ints()), SSet("e", V("i"), L(0)), Pr(Len(V("e")), Len(V("cur"))),
+			Def("row", Strs(Op("+", S("r"), ItoaE{X: V("i")}))),
+			IfS(Op("==", V("i"), N(0)), Set("first", V("cur")), Set("keep", V("row")))),
+		Pr(Len(V("first")), Idx("first", N(0)), Idx("first", N(1))), Pr(Len(V("keep")), Idx("keep", N(0))),
+		Def("w", N(0)), ForC(Op("<", V("w"), N(2)), VarT("z", TInts), SSet("z", V("w"), N(5)), Pr(Len(V("z"))), Inc("w"))))
+	add("element-assignment-index-before-value", Prog(Def("pos", Ints(N(0))),
+		Fn("next", nil, []Type{TInt}, SSet("pos", N(0), Op("+", Idx("pos", N(0)), N(1))), Ret(Idx("pos", N(0)))),
+		Def("a", Ints()), SSet("a", Call("next"), Op("*", Call("next"), N(10))), Pr(Len(V("a")), Idx("a", N(1)), Idx("pos", N(0))),
+		Def("lg", Strs(S("a"))), Fn("push", []ParamDecl{Pm("v", TString)}, []Type{TInt}, SSet("lg", Len(V("lg")), V("v")), Ret(Len(V("lg")))),
+		SSet("lg", Call("push", S("b")), Op("+", S("n"), ItoaE{X: Call("push", S("c"))})), Pr(Len(V("lg")), Idx("lg", N(0)), Idx("lg", N(1)), Idx("lg", N(2)))))
 	add("index-expression", Prog(Def("s", Ints(L(0), L(1), L(2), L(3))), Def("i", N(1)), Pr(Idx("s", Op("+", V("i"), N(1))), Idx("s", Op("*", V("i"), N(3))), Idx("s", Idx("s", N(0))))))
 	return sh
 }
